@@ -199,3 +199,95 @@ Proof.
       exists (tr ++ sch). rewrite run_app. rewrite (macro_is_run _ _ _ _ E). exact Hs.
     + exists []. reflexivity.
 Qed.
+
+(* ---------------------------------------------------------------- the repaired downloader never deadlocks *)
+(* a program whose every throttle is the repaired waitUntilSizeIsBelow (q.didPull captured under the
+   mutex, [WaitBelow true]) - the variant the tie selects when the source captures the channel *)
+Definition repaired (prog : list pop) : Prop := forall f n, In (WaitBelow f n) prog -> f = true.
+
+Definition pc_repaired (pc : ppc) : Prop :=
+  match pc with
+  | WLocked f _ | WUnlockWait f _ _ | WRead f _ _ | WSel f _ _ _ | WRelock f _ => f = true
+  | _ => True
+  end.
+
+Definition inv_repaired (s : state) : Prop := repaired (p_prog s) /\ pc_repaired (p_pc s).
+
+Lemma repaired_step : forall s l s', inv_repaired s -> step s l = Some s' -> inv_repaired s'.
+Proof.
+  intros s [t b] s' [HR HP] H.
+  destruct s as [q dpu cpu dpl cpl mu ca pp pr cp ck pu de re st].
+  unfold step in H; cbn in H. destruct st; try discriminate.
+  unfold inv_repaired, repaired in *; cbn in HR, HP. destruct t.
+  - unfold step_p, lock, unlock in H; cbn in H. destruct pp; cbn in H.
+    all: break_step H.
+    all: inversion H; subst; clear H; cbn.
+    all: try (split; [exact HR | first [exact HP | exact I]]).
+    + split; [intros f n Hin; apply (HR f n); right; exact Hin | exact I].
+    + split; [intros f0 n0 Hin; apply (HR f0 n0); right; exact Hin | apply (HR fixed n); left; reflexivity].
+  - unfold step_c, lock, unlock in H; cbn in H. destruct cp; cbn in H.
+    all: break_step H.
+    all: inversion H; subst; clear H; cbn; split; assumption.
+  - unfold step_x in H; cbn in H. destruct ca; [discriminate|].
+    inversion H; subst; clear H; cbn. split; assumption.
+Qed.
+
+Lemma repaired_run : forall sched s, inv_repaired s -> inv_repaired (run s sched).
+Proof.
+  induction sched as [|l r IH]; intros s HI; cbn; [exact HI|].
+  destruct (step s l) eqn:E; [apply IH; eapply repaired_step; eauto | apply IH; exact HI].
+Qed.
+
+Lemma repaired_both_parked : forall prog k sched,
+  repaired prog ->
+  let s := run (init prog k) sched in
+  forall f n g0 g gc, p_pc s = WSel f n g0 g -> c_pc s = CSel gc -> 0 <= n ->
+  enabled s (TP, BChan) = true \/ enabled s (TC, BChan) = true.
+Proof.
+  intros prog k sched HR s f n g0 g gc Hp Hc Hn.
+  assert (inv_repaired s) as [_ HP] by (apply repaired_run; split; [exact HR | exact I]).
+  rewrite Hp in HP. cbn in HP.
+  destruct (inv_reach prog k sched) as (_ & _ & _ & _ & HI & _). fold s in HI.
+  unfold inv_pcap in HI. rewrite Hp in HI. destruct HI as (_ & _ & _ & Hf & _).
+  apply (no_deadlock_partial prog k sched f n g0 g gc Hp Hc (Hf HP) Hn).
+Qed.
+
+Lemma repaired_not_deadlocked : forall prog k sched,
+  repaired prog -> ~ deadlocked (run (init prog k) sched).
+Proof.
+  intros prog k sched HR ((f & n & g0 & g & Hp & Hq) & (gc & Hc) & _ & _ & _ & _ & HmP & HmC).
+  assert (0 <= n) as Hn by (unfold qlen in Hq; lia).
+  unfold can_move in HmP, HmC.
+  destruct (repaired_both_parked prog k sched HR f n g0 g gc Hp Hc Hn) as [E | E];
+    [rewrite E in HmP | rewrite E in HmC]; discriminate.
+Qed.
+
+Lemma no_deadlock_fixed : forall prog k sched,
+  repaired prog ->
+  let s := run (init prog k) sched in
+  ~ deadlocked s
+  /\ (forall f n g0 g gc, p_pc s = WSel f n g0 g -> c_pc s = CSel gc -> 0 <= n ->
+        enabled s (TP, BChan) = true \/ enabled s (TC, BChan) = true).
+Proof.
+  intros prog k sched HR s. split.
+  - apply repaired_not_deadlocked; exact HR.
+  - apply repaired_both_parked; exact HR.
+Qed.
+
+(* the schedule that deadlocks the unrepaired pipeline, run on the repaired one: both sides are parked,
+   the backlog is drained, and the downloader's select can fire *)
+Example ex_repaired_both_parked :
+  let prog := trad_prog true [10; 11; 12] in
+  let s := run (init prog 3) deadlock_sched in
+  repaired prog /\ (exists g0 g, p_pc s = WSel true 1 g0 g) /\ (exists gc, c_pc s = CSel gc)
+  /\ qlen s <= 1 /\ p_prog s <> [] /\ c_pulls s <> O /\ cancelled s = false
+  /\ enabled s (TP, BChan) = true.
+Proof.
+  cbv zeta. split.
+  - intros f n Hin. cbn in Hin.
+    repeat (destruct Hin as [Hin | Hin]; [inversion Hin; reflexivity || discriminate Hin|]).
+    contradiction.
+  - vm_compute. repeat split; try discriminate.
+    + exists 0, 0. reflexivity.
+    + exists 1. reflexivity.
+Qed.
